@@ -6,6 +6,7 @@
 #include "run.h"
 #include <type_traits>
 #include <functional>
+#include "preds2.h"
 
 template<class G, class Enable=void> struct HomTail { static std::vector<int> get(){ return {1}; } };
 template<class S_> struct HomTail<manif::SE_2_3<S_>> { static std::vector<int> get(){ return {1,0}; } };
@@ -305,6 +306,6 @@ template<class G> struct Pred {
       else { o.mat(l.coeffs()); o.mat(l.coeffs()); o.mat(X.transform()); o.mat(X.transform()); }
       return true;
     }
-    return false;
+    return Pred2<G>::run(c,o);
   }
 };
